@@ -1,4 +1,5 @@
 import Anysystem.Props.C07
+import Anysystem.Proofs.SimStepThms
 #print axioms Anysystem.step_timerContract
 #print axioms Anysystem.refRun_timerContract
 #print axioms Anysystem.sendLocal_timerContract
@@ -7,3 +8,7 @@ import Anysystem.Props.C07
 #print axioms Anysystem.TimerWitness.C07_D1_witness
 #print axioms Anysystem.TimerWitness.C07_D1_witness_path
 #print axioms Anysystem.TimerWitness.C07_reference_variant_ok
+#print axioms Anysystem.Sim.handleActions_set_timer
+#print axioms Anysystem.Sim.handleActions_override_timer
+#print axioms Anysystem.Sim.handleActions_once_ignored
+#print axioms Anysystem.Sim.handleActions_cancel_timer
